@@ -672,7 +672,9 @@ func (w *world) doConnect(c *mconn, dst peer.ID, req string, sc stopScript) *con
 	return out
 }
 
-var stopFailing = func(sc stopScript) bool { return sc.Kind != "ok" }
+// the stop handshake fails when the destination misbehaves or answers later than the relay's
+// HandshakeTimeout (delays of exactly one minute are never generated: the order is not fixed then)
+var stopFailing = func(sc stopScript) bool { return sc.Kind != "ok" || sc.Delay > relay.HandshakeTimeout }
 
 // connect = well-formed request + judgement + model update. Returns (class, circuit or nil).
 func (w *world) connect(c *mconn, dst int, sc stopScript) (string, *mcirc) {
